@@ -47,6 +47,16 @@ def tasks(tier):
     # process, so a scheme that is altered by a query (inv(), plot()) corrupts every region built afterwards
     ts.append(("shared default schemes", "run_included", dict(modname="c05", fname="run_purity", kwargs={}, oid="C06.O8",
                                                             why="regions built from a template share its default scheme object; the scheme must not be altered by inv() / plot()")))
+    # field.hess() / grad() reproduce polynomials only if the template's element supplies the exact derivatives of its own shape functions
+    from . import c04
+    from ..scenario import new_interp as _ni
+
+    for mn, cn in c04._discover(_ni()):
+        if cn == "ArbitraryOrderLagrange":
+            continue
+        ts.append(("element derivatives of %s" % cn, "run_included", dict(
+            modname="c04", fname="run_class", kwargs=dict(modname=mn, clsname=cn, lagrange=None), oid="C06.O9", select_oid=["C04.O1", "C04.O2"],
+            why="the cached dhdX / d2hdXdX push forward the element's gradient / hessian: they have to be the exact derivatives of the element's shape functions for the polynomial-reproduction clause")))
     ts.append(("fields", "run_fields", {}))
     ts.append(("templates", "run_templates", dict(tier=tier)))
     return ts
